@@ -49,6 +49,7 @@ from basilisp.lang.interfaces import (
     IReduce,
     ISeq,
     ISeqable,
+    ISequential,
     ITransientAssociative,
     ITransientSet,
     ReduceFunction,
@@ -2089,19 +2090,22 @@ class _TrampolineArgs:
     @property
     def args(self) -> tuple:
         """Return the arguments for a trampolined function. If the function
-        that is being trampolined has varargs, unroll the final argument if
-        it is a sequence."""
+        that is being trampolined has varargs, the final argument is the new value
+        of the rest parameter: ``nil`` means there are no rest arguments and a
+        sequential collection is unrolled into them."""
         if not self._has_varargs:
             return self._args
 
         try:
             final = self._args[-1]
-            if isinstance(final, ISeq):
-                inits = self._args[:-1]
-                return tuple(itertools.chain(inits, final))
-            return self._args
         except IndexError:
             return ()
+        if final is None:
+            return self._args[:-1]
+        if isinstance(final, (ISeq, ISequential)):
+            inits = self._args[:-1]
+            return tuple(itertools.chain(inits, final))
+        return self._args
 
     @property
     def kwargs(self) -> dict:
